@@ -76,6 +76,16 @@ CHECKS = {
              'and GOMAXPROCS 1,2,16, and checked with the race detector and table fingerprints.',
         note='race detector and free goroutine schedules observe only executed interleavings; 5-file layout with 2 '
              'sibling repositories; callees well-formed'),
+    'C12': dict(
+        category='model_checking', design_ref='5 (C12), 3.1 Availability, 5.22',
+        technique='TLA+ spec Availability.tla (GitHub table transcribed from the offline docs copy, position catalogue, KeyOf) '
+                  'checked by TLC; the complete (position x name x embedding) cross product dumped with predicted verdicts '
+                  'and replayed through Linter.Lint and WorkflowKeyAvailability/ExprSemanticsChecker',
+        text='The finite space (95 positions x 17 names x embeddings x base variants) is enumerated completely by TLC with a '
+             'predicted allowed/not-allowed verdict from an independent transcription of GitHub documentation; the real '
+             'linter is run on every vector and the API table compared row by row.',
+        note='positions whose governing key the docs leave ambiguous (container env expression form) are not catalogued; '
+             'positions without key are constrained only as far as 5.22 says; names embedded as fromJSON(toJSON(x))'),
 }
 
 REASON_NOT_YET = 'check not built yet in this revision of /verif (planned, see DESIGN.md section 5); not claimed'
